@@ -617,7 +617,10 @@ pub fn run_batch(check: &dyn Check, opts: &BatchOptions) -> BatchResult {
 				eprintln!("violation at case {idx} (seed {}): {}", opts.seed, viol);
 				eprintln!("shrinking ...");
 			}
-			let (small, steps) = shrink(check, case.clone(), &sig, Duration::from_secs(120));
+			// (KVERIF_SHRINK_SECS: time budget for minimising; the catch-table tools set it to 0 -
+			// they only need the verdict - the registered commands leave the default)
+			let shrink_secs = std::env::var("KVERIF_SHRINK_SECS").ok().and_then(|v| v.parse::<u64>().ok()).unwrap_or(120);
+			let (small, steps) = shrink(check, case.clone(), &sig, Duration::from_secs(shrink_secs));
 			// confirm the minimised case in a fresh process
 			let confirmed = match run_case_in_child(id, &small, hang_secs()) {
 				Ok((Some(v), _)) if v["signature"].as_str() == Some(sig.as_str()) => Some(v),
